@@ -2,3 +2,4 @@
 -- with the transcribed package decoders (Model/Codec/Pkg.lean)
 import Dblib.Props.C02.Abstract
 import Dblib.Props.C02.Concrete
+import Dblib.Props.C02.EndToEnd
